@@ -27,7 +27,7 @@ ASSUMPTIONS = ["ref/interp.py is the PDDL 2.1 level-2 transition function (effec
 REAL_VS_STUB = {"real": ["DomainParser, ProblemParser, Operator.ground/apply, GroundedEffect, GroundedPrecondition, "
                          "State.copy/serialize (all of pddl_plus_parser)"],
                 "stub": ["__hash__ of set members (contract-preserving, tape-salted)", "nothing else"]}
-TECHNIQUE = "deterministic simulation: seeded hash-schedule (effect processing order) and operator re-use histories vs reference transition function"
+TECHNIQUE = "deterministic simulation: seeded hash-schedule (effect processing order), operator histories (re-use, own output, interrupted first use, observer inspection, object added / type re-parented in place) and worker environments (EPSILON=0, python -O, NUMERIC_PRECISION=3) vs reference transition function"
 DESIGN_REF = "DESIGN.md §5 C03, §3.2"
 LEVEL_TEXT = ("seeded exploration: each generated (state, call) is executed under several tape-chosen iteration orders of the "
               "library's effect sets and flag combinations and compared fact-by-fact and fluent-by-fluent with an independent "
